@@ -142,7 +142,7 @@ PROPS["C13"] = {
 
 PROPS["C08"] = {
     "test": "TestC08", "level": "exploration", "budget": {"quick": 30, "thorough": 600},
-    "rule": "the real transport with one accessory (bool, int, float and string characteristics, all with events); controller X verifies and subscribes to all of them, then 1..4 application goroutines set 1..4 unique values each (string values optionally of several frames), a second verified controller Y writes by PUT, X's own GET requests are answered, and hap.KeepAlive (started by the harness as a user would) fires when the scheduler advances the simulated clock by 10 minutes; every hap.Connection.Write entry, every write-mutex acquisition and every socket write entry is a park, so the scheduler decides in which order sealed frames reach the socket. Oracle: everything the accessory put on X's socket, in socket order, authenticates frame by frame with counters 0,1,2,... under the reference framing, and the decrypted stream is a concatenation of the payloads recorded at Connection.Write (each intact and contiguous). non-trivial = at least two writers were parked on X's connection (at the socket or at the write mutex) at the same quiescent point; distinct = distinct (scenario shape, event-log hash)",
+    "rule": "the real transport with one accessory (bool, int, float and string characteristics, all with events); controller X verifies and subscribes to all of them, then 1..4 application goroutines set 1..4 unique values each (string values optionally of several frames), a second verified controller Y writes by PUT, X's own GET requests are answered, and hap.KeepAlive (started by the harness as a user would) fires when the scheduler advances the simulated clock by 10 minutes; every hap.Connection.Write entry, every write-mutex acquisition and every socket write entry is a park, so the scheduler decides in which order sealed frames reach the socket. Oracle: everything the accessory put on X's socket, in socket order, authenticates frame by frame with counters 0,1,2,... under the reference framing, and the decrypted stream is a concatenation of the payloads recorded at Connection.Write (each intact and contiguous). connection level (a quarter of the scenarios): one real hap.Connection with an installed session over a simulated socket and 2..4 writer goroutines calling its Write / WriteEvent concurrently with payloads of 1 to 3 frames, same oracle on the socket stream. non-trivial = at least two writers were parked on X's connection (at the socket or at the write mutex) at the same quiescent point; distinct = distinct (scenario shape, event-log hash)",
     "real": REAL_SYSTEM + ["hap.KeepAlive (real), driven by the fake clock"], "stub": STUB_SYSTEM,
     "assumptions": ["token passing orders all goroutines, so unsynchronised memory access inside Encrypt is not visible to this check (no park inside Encrypt)",
                     "interleavings at park-point granularity"],
